@@ -67,6 +67,7 @@ type checker struct {
 	// flushBroken is set once a Flush that nothing was holding up never returned (reproduced); later
 	// cases that need Flush are skipped so that a deadlocking build does not cost a watchdog per case.
 	flushBroken bool
+	holdBroken  bool
 	concStuck   int
 }
 
@@ -660,21 +661,17 @@ func (c *checker) runHold(cs holdCase, exposure time.Duration) string {
 		}
 	})
 	close(release)
-
-	allBack := make(chan struct{})
-	go func() { <-aDone; owg.Wait(); <-bDone; close(allBack) }()
-	select {
-	case <-allBack:
-	case <-time.After(20 * time.Second):
-		return stuck
-	}
-	r.Eval(1)
 	kind := "drain"
 	if cs.UseFlush {
 		kind = "flush"
 	}
 	if returnedEarly {
 		r.Violation("consolidator-hold:"+kind+"-returned-while-slot-held", fmt.Sprintf("%s returned although one of the %d slots was still held by a ReceiveMetricMap caller", kind, cs.Spots), cs)
+	}
+	select {
+	case <-bDone:
+	case <-time.After(20 * time.Second):
+		return stuck
 	}
 	if len(first) != cs.Spots {
 		r.Violation("consolidator-hold:drain-size", fmt.Sprintf("%s delivered %d maps for %d slots", kind, len(first), cs.Spots), cs)
@@ -692,6 +689,14 @@ func (c *checker) runHold(cs holdCase, exposure time.Duration) string {
 	if d := append(ref.Diff(heldGot, wantHeld.Series, opts), wantHeld.CheckGauges(heldGot)...); len(d) > 0 {
 		r.Violation("consolidator-hold:held-data-not-in-overlapping-"+kind+":"+diffKind(d[0]), fmt.Sprintf("the batch merged into the held slot must be in the %s that waited for it: %s", kind, strings.Join(d, " | ")), cs)
 	}
+	allBack := make(chan struct{})
+	go func() { <-aDone; owg.Wait(); close(allBack) }()
+	select {
+	case <-allBack:
+	case <-time.After(20 * time.Second):
+		return stuck
+	}
+	r.Eval(1)
 	// (2) nothing is lost or doubled over both drains
 	rest := mc.Drain()
 	all := append(append([]*gostatsd.MetricMap{}, first...), rest...)
@@ -709,8 +714,8 @@ func (c *checker) runHold(cs holdCase, exposure time.Duration) string {
 }
 
 func (c *checker) hold(cs holdCase, exposure time.Duration) {
-	if cs.UseFlush && c.flushBroken {
-		c.r.Event("hold_skipped_flush_broken", 1)
+	if (cs.UseFlush && c.flushBroken) || c.holdBroken {
+		c.r.Event("hold_skipped_after_stuck", 1)
 		return
 	}
 	if c.runHold(cs, exposure) != stuck {
@@ -721,6 +726,7 @@ func (c *checker) hold(cs holdCase, exposure time.Duration) {
 	c.r.Event("hold_stuck_retry", 1)
 	if c.runHold(cs, exposure) == stuck {
 		c.flushBroken = c.flushBroken || cs.UseFlush
+		c.holdBroken = c.holdBroken || !cs.UseFlush
 		c.r.Violation("consolidator-hold:never-returns-after-release", fmt.Sprintf("with %d slots, a slot held during Flush/Drain and then released: a ReceiveMetricMap/Flush/Drain caller was still blocked 20 s later (twice)", cs.Spots), cs)
 	} else {
 		c.r.Inconclusive("hold-scenario-stuck-once")
